@@ -42,6 +42,7 @@ fn table(prop: &str) -> Option<(CountFn, GenFn, RunFn)> {
         "C04P" => (c04p::count, c04p::gen, c04p::run),
         "C02" => (c02::count, c02::gen, c02::run),
         "C03" => (c03::count, c03::gen, c03::run),
+        #[cfg(jubako_verif)]
         "C07" => (c07::count, c07::gen, c07::run),
         "C08" => (c08::count, c08::gen, c08::run),
         "C10" => (c10::count, c10::gen, c10::run),
@@ -190,6 +191,7 @@ fn main() {
                 k += stride;
             }
             lab::drop_specimens();
+            #[cfg(jubako_verif)]
             c07::drop_fixtures();
             util::emit(&json!({"t": "done"}));
         }
